@@ -59,7 +59,7 @@ BUDGET = {"quick": 240, "thorough": 3000}
 
 LOOKALIKES = ["..\n", ". \n"]
 # content lines that look like commands or like the text-block terminator; they must travel through a text block unchanged
-LOOKALIKES2 = ["1d\n", "2a\n", "1,2c\n", "0a\n", "...\n", ".x\n", " .\n"]
+LOOKALIKES2 = ["1d\n", "2a\n", "1,2c\n", "0a\n", "...\n", ".x\n", " .\n", ".\r\n"]      # the last: a dot-only line of a CR LF file
 LOOK_MAXLEN = {"quick": 2, "thorough": 4}
 BADS = [("garbage", "x\n"), ("unknown-command", "1z\n"), ("non-numeric-range", "1,a\n"), ("no-address", "a\n"),
         ("negative-address", "-1d\n"), ("blank-before-command", "1 d\n"), ("range-on-append", "1,2a\n"),
